@@ -31,14 +31,27 @@ pub fn pulse_response(nmcp: usize, stage: usize, log_gain: bool, rate: usize, al
 
 /// (response in the third period, response to the very first pulse - filter initially at rest, nothing overlapping)
 pub fn pulse_responses(nmcp: usize, stage: usize, log_gain: bool, rate: usize, alpha: f64, beta: f64, spectrum: &[f64]) -> Result<(Vec<f64>, Vec<f64>), String> {
+    pulse_responses_step(nmcp, stage, log_gain, rate, alpha, beta, spectrum, 0.0)
+}
+
+/// The same, but the first of the three frames carries the spectrum with its 0th coefficient raised by `c0_step` (a pure level
+/// step between the first and the second frame; the third period, where the response is taken, is two frames later).
+#[allow(clippy::too_many_arguments)]
+pub fn pulse_responses_step(nmcp: usize, stage: usize, log_gain: bool, rate: usize, alpha: f64, beta: f64, spectrum: &[f64], c0_step: f64) -> Result<(Vec<f64>, Vec<f64>), String> {
     let t0 = rate / 20;
     guarded(|| {
         let run = |stage: usize, lg: bool, beta: f64, sp: &[f64]| -> Vec<f64> {
             let mut v = Vocoder::new(nmcp, 0, stage, lg, rate, alpha, beta, 1.0, t0);
             let mut out = Vec::with_capacity(3 * t0);
-            for _ in 0..3 {
+            for k in 0..3 {
                 let mut buf = vec![0.0; t0];
-                v.synthesize(20f64.ln(), sp, &[], &mut buf);
+                if k == 0 && c0_step != 0.0 && !sp.is_empty() {
+                    let mut sp1 = sp.to_vec();
+                    sp1[0] += c0_step;
+                    v.synthesize(20f64.ln(), &sp1, &[], &mut buf);
+                } else {
+                    v.synthesize(20f64.ln(), sp, &[], &mut buf);
+                }
                 out.extend_from_slice(&buf);
             }
             out
@@ -88,8 +101,19 @@ pub fn run(cases_path: &str, out_path: &str) {
                     Ok(h) => h,
                     Err(p) => return json!({"ev": "panic", "in": "vocoder(beta)", "msg": p, "input": c}),
                 };
+                // odd cases: the first frame is louder by half a neper (same shape) - the postfilter acts on every frame's own
+                // coefficients, so the third period must look exactly as without the step
+                let step = if c64.iter().sum::<i64>().rem_euclid(2) == 1 { 0.5 } else { 0.0 };
+                let (h0, hb) = if step != 0.0 {
+                    match (pulse_responses_step(cep.len(), 0, false, rate, alpha, 0.0, &cep, step), pulse_responses_step(cep.len(), 0, false, rate, alpha, beta, &cep, step)) {
+                        (Ok(a), Ok(b)) => (a.0, b.0),
+                        (Err(p), _) | (_, Err(p)) => return json!({"ev": "panic", "in": "vocoder(step)", "msg": p, "input": c}),
+                    }
+                } else {
+                    (h0, hb)
+                };
                 let ratio = energy(&hb) / energy(&h0);
-                json!({"ev": "post", "c64": c64, "beta8": c["beta8"], "meas0": grid33(&h0, alpha), "measb": grid33(&hb, alpha),
+                json!({"ev": "post", "step": step != 0.0, "c64": c64, "beta8": c["beta8"], "meas0": grid33(&h0, alpha), "measb": grid33(&hb, alpha),
                        "eratio_ppm": if ratio.is_finite() { (ratio * 1e6).round().min(2.0e9) as i64 } else { -1 },
                        "changed": !bits_eq(&h0, &hb), "biteq": bits_eq(&h0, &hb), "alpha": c["alpha"], "rate": rate})
             }
